@@ -26,6 +26,9 @@ cfg_if::cfg_if! {
 /// Use `corosensei` as the low-level coroutine.
 #[repr(C)]
 pub struct Coroutine<'c, Param, Yield, Return> {
+    // must stay the first field: the process-wide trap handler reads it
+    // through a coroutine reference of possibly another type
+    trap: unsafe fn(*const std::ffi::c_void, u64) -> TrapHandlerRegs,
     pub(crate) id: u64,
     pub(crate) name: String,
     inner: corosensei::Coroutine<Param, Yield, Result<Return, &'static str>, DefaultStack>,
@@ -86,14 +89,9 @@ impl<'c, Param, Yield, Return> Coroutine<'c, Param, Yield, Return> {
                         }
                     }
                     if let Some(co) = Self::current() {
-                        let stack_ptr_in_bounds = co.stack_ptr_in_bounds(sp);
-                        let regs = co.inner.trap_handler().setup_trap_handler(move || {
-                            Err(if stack_ptr_in_bounds {
-                                "invalid memory reference"
-                            } else {
-                                "stack overflow"
-                            })
-                        });
+                        // the installed handler is the instance of the first coroutine type
+                        // resumed in this process, `co` may be of any other coroutine type
+                        let regs = (co.trap)(std::ptr::from_ref(co).cast(), sp);
                         cfg_if::cfg_if! {
                             if #[cfg(all(
                                     any(target_os = "linux", target_os = "android"),
@@ -217,14 +215,9 @@ impl<'c, Param, Yield, Return> Coroutine<'c, Param, Yield, Return> {
                         }
                     }
 
-                    let stack_ptr_in_bounds = co.stack_ptr_in_bounds(sp);
-                    let regs = co.inner.trap_handler().setup_trap_handler(move || {
-                        Err(if stack_ptr_in_bounds {
-                            "invalid memory reference"
-                        } else {
-                            "stack overflow"
-                        })
-                    });
+                    // the installed handler is the instance of the first coroutine type
+                    // resumed in this process, `co` may be of any other coroutine type
+                    let regs = (co.trap)(std::ptr::from_ref(co).cast(), sp);
 
                     cfg_if::cfg_if! {
                         if #[cfg(target_arch = "x86_64")] {
@@ -252,6 +245,22 @@ impl<'c, Param, Yield, Return> Coroutine<'c, Param, Yield, Return> {
                 // ExceptionContinueExecution which has a value of 0.
                 -1
             }
+        }
+    }
+
+    /// Make the faulting coroutine `co`, which must be of exactly this type,
+    /// return the error once the trap handler returns.
+    unsafe fn trap_regs(co: *const std::ffi::c_void, sp: u64) -> TrapHandlerRegs {
+        unsafe {
+            let co = &*co.cast::<Self>();
+            let stack_ptr_in_bounds = co.stack_ptr_in_bounds(sp);
+            co.inner.trap_handler().setup_trap_handler(move || {
+                Err(if stack_ptr_in_bounds {
+                    "invalid memory reference"
+                } else {
+                    "stack overflow"
+                })
+            })
         }
     }
 
@@ -443,6 +452,7 @@ where
         let id = hasher.finish();
         #[allow(unused_mut)]
         let mut co = Coroutine {
+            trap: Self::trap_regs,
             id,
             name,
             inner,
